@@ -170,8 +170,18 @@ func c07AccTemplate(r *Rand, pool []string) string {
 	return Pick(r, pool)
 }
 
+// c07AccRefs counts the references to accumulated values ({.} and the data columns) in a template.
+func c07AccRefs(t string) int {
+	n := 0
+	for _, ref := range []string{"{.}", "{a}", "{b}", "{c}", "{d}"} {
+		n += strings.Count(t, ref)
+	}
+	return n
+}
+
 func c07AccCase(r *Rand) string {
 	var ops []string
+	doubling := false // a data template with two references to accumulated values can double a column per sample
 	ng := Pick(r, []int{0, 0, 1, 1, 1, 2, 2, 3})
 	nd := Pick(r, []int{0, 1, 1, 2, 2, 3, 3, 4})
 	gnames := []string{"g", "h", "g2", "a"}
@@ -189,7 +199,11 @@ func c07AccCase(r *Rand) string {
 			name = c07AccName(r, dnames)
 		}
 		initial := Pick(r, []string{"0", "0", "0", "", "1", "x", "-5", "\x00", "9223372036854775807"})
-		ops = append(ops, fmt.Sprintf("d:%s:%s:%s", HexS(name), HexS(normTemplate(c07AccTemplate(r, c07AccDataTemplates))), HexS(initial)))
+		tmpl := c07AccTemplate(r, c07AccDataTemplates)
+		if c07AccRefs(tmpl) >= 2 {
+			doubling = true
+		}
+		ops = append(ops, fmt.Sprintf("d:%s:%s:%s", HexS(name), HexS(normTemplate(tmpl)), HexS(initial)))
 	}
 	addS := func() {
 		ops = append(ops, "o:"+HexS(normTemplate(c07AccTemplate(r, c07AccSortTemplates))))
@@ -211,6 +225,9 @@ func c07AccCase(r *Rand) string {
 	n := r.Intn(8)
 	if r.Chance(1, 10) {
 		n = r.Range(8, 25)
+	}
+	if doubling && n > 10 {
+		n = 10 // {c}{a} with a = {c} grows like 2^n: 25 samples are hundreds of megabytes (and a stack overflow in the list-based model)
 	}
 	pool := []string{}
 	for i := 0; i < 4; i++ {
